@@ -2077,17 +2077,37 @@ def r18(ctx):
     repo = ctx.repo
     ctx.rule("C01.R18", "the writer never zero-codes a body the reader's expansion cap rejects: the cap constant of zero_code_expand "
                         "has a counterpart on the writer's side")
-    ze = repo.fn("UDPMessageDeserializer.zero_code_expand")
+    zes = [g for g in repo.funcs.get("zero_code_expand", [])]
+    if len(zes) != 1:
+        ctx.note("C01.R18 not decided: zero_code_expand is not a single function any more")
+        return
+    ze = zes[0]
     ev = ConstEval(repo, ze.module)
     caps = set()
-    for g in class_methods_reachable(repo, ze, depth=1):
+    helpers = list(class_methods_reachable(repo, ze, depth=1)) if ze.cls is not None else [ze]
+    helpers += [g for c in ast.walk(ze.node) if isinstance(c, ast.Call) and isinstance(c.func, ast.Name)
+                for g in repo.funcs.get(c.func.id, []) if g.module is ze.module and g.cls is None and g not in helpers]
+    for g in helpers:
+        # defaults of parameters (max_size=CONST) count as constants inside the function
+        a_ = g.node.args
+        pdefs = dict(zip([x.arg for x in (a_.posonlyargs + a_.args)][len(a_.posonlyargs + a_.args) - len(a_.defaults):], a_.defaults))
+        pdefs.update({k.arg: d for k, d in zip(a_.kwonlyargs, a_.kw_defaults) if d is not None})
+        env_d = {k: ev.ev(v) for k, v in pdefs.items()}
+        for cmp_ in [n for n in ast.walk(g.node) if isinstance(n, ast.Compare) and len(n.ops) == 1 and isinstance(n.ops[0], (ast.Gt, ast.GtE))]:
+            if any(isinstance(x, ast.Call) and ap(x.func) == "len" for x in ast.walk(cmp_.left)) or isinstance(cmp_.left, ast.Name):
+                v = ev.ev(cmp_.comparators[0], env_d)
+                if isinstance(v, int) and not isinstance(v, bool) and v > 255:
+                    caps.add(v)
+    for g in []:
         for cmp_ in [n for n in walk(g.node) if isinstance(n, ast.Compare) and len(n.ops) == 1 and isinstance(n.ops[0], (ast.Gt, ast.GtE))]:
             if isinstance(cmp_.left, ast.Call) and ap(cmp_.left.func) == "len" or \
                     (isinstance(cmp_.left, ast.BinOp) and any(isinstance(x, ast.Call) and ap(x.func) == "len" for x in ast.walk(cmp_.left))):
                 v = ev.ev(cmp_.comparators[0])
                 if isinstance(v, int) and v > 255:
                     caps.add(v)
-    ctx.require(len(caps) >= 1, "C01.R18: no expansion cap found in zero_code_expand (C03.R1 decides boundedness)")
+    if not caps:
+        ctx.note("C01.R18 not decided: no constant expansion cap found in zero_code_expand (C03.R1 decides boundedness)")
+        return
     sf = repo.fn("UDPMessageSerializer.serialize")
     evw = ConstEval(repo, sf.module)
     found = False
